@@ -148,7 +148,7 @@ inductive Body where
   | malformed (line : Nat)        -- `PARSE_ERROR` on that line
   | nodef                         -- no type definition (empty file): `PCORE_NO_DEFINITION`
   | unreadable                    -- `ioutil.ReadFile` fails: `PCORE_UNABLE_TO_READ_FILE`
-  deriving Repr
+  deriving Repr, DecidableEq
 
 abbrev Tree := List (Path × Body)
 
@@ -175,7 +175,7 @@ structure Cfg where
 structure St where
   ents : List ((Lid × Key) × Entry) := []
   reads : List Path := []             -- one item per `GetContent` call, oldest first
-  deriving Repr
+  deriving Repr, DecidableEq
 
 def St.get (s : St) (l : Lid) (k : Key) : Option Entry :=
   match s.ents.find? (fun e => e.1 = (l, k)) with
